@@ -102,9 +102,10 @@ Inductive aerr :=
 | ERange.      (* ErrHeadersForGivenRangeNotFound 404 *)
 Inductive ares := AOk (p : list row) | AErr (e : aerr).
 
-(* [fixed = false]: the code as it is - two headers of EQUAL height give the empty list whatever they are.
-   [fixed = true] : the proposed repair (build/proposed-fixes/C04-1.diff) - the empty list only for a = b,
-                    ErrHeadersNotPartOfTheSameChain for two different headers of equal height. *)
+(* [fixed = true] : the code (since the fix ed2f6a2 of /repo, which is build/proposed-fixes/C04-1.diff): at EQUAL height the
+                    empty list only for a = b, ErrHeadersNotPartOfTheSameChain for two different headers.
+   [fixed = false]: the code before ed2f6a2 - two headers of equal height gave the empty list whatever they were
+                    (kept for history / for checking an unrepaired tree: VERIF_C04_FIXED=0). *)
 Definition ancestors_gen (fixed : bool) (s : store) (a b : N) : ares :=
   match by_hash s a, by_hash s b with
   | Some ra, Some rb =>
@@ -121,8 +122,8 @@ Definition ancestors_gen (fixed : bool) (s : store) (a b : N) : ares :=
       end
   | _, _ => AErr ENotFound
   end.
-Definition ancestors := ancestors_gen false.
-Definition ancestors_fixed := ancestors_gen true.
+Definition ancestors := ancestors_gen true.
+Definition ancestors_before_fix := ancestors_gen false.
 
 (* ------------------------------------------------------------------ GetCommonAncestor *)
 Inductive cres :=
